@@ -877,6 +877,8 @@ def run(ctx):
                 m += 1
                 if not ctx.mine(m):
                     continue
+                if ctx.quick and gi == 1 and bits >= 4096:
+                    continue  # 4096/8192-bit exchanges cost seconds of CPU each: one hash in quick, both in thorough
                 nre = 1 if (gi == 0 or not ctx.quick) else 0
                 gexsize_case(ctx, gk, bits, kexlab.HOSTALGS[(bi + gi * 4 + ctx.seed) % 7], nre, sample=False)
         # ---- honest group exchange with non-default client requests ------------------------
@@ -915,11 +917,11 @@ def run(ctx):
     for M_ in kexlab.KEXES:
         ctx.require("kexorder.client_first.%s" % M_, 1)
         ctx.require("kexorder.server_first.%s" % M_, 1)
-    ctx.require("gexsize.sessions", 8)
+    ctx.require("gexsize.sessions", 6)
     for b_ in (1024, 2048, 4096, 8192):
-        ctx.require("gexsize.%d" % b_, 2)
-    ctx.require("gexsize.1024.exchanges", 3)
-    ctx.require("gexsize.8192.exchanges", 3)
+        ctx.require("gexsize.%d" % b_, 1)
+    ctx.require("gexsize.1024.exchanges", 2)
+    ctx.require("gexsize.8192.exchanges", 2)
     ctx.require("pinned.sessions", 25)
     for c_ in kexpins.CLASSES:
         ctx.require("pinned.%s" % c_, 3)
